@@ -75,7 +75,7 @@ fn shrink_and_report(run: &Run, p: Prof, s: &str) {
 pub fn run(run: &Run) {
     run.set_rule(
         "Generator: (a) all strings of length <= L over {U+0020,U+00A0,U+2003,U+3000,a,e-acute,euro,U+1D11E} (L=7 quick, 8 thorough), \
-         (b) all 4-slot strings over {Zs,' ','a',euro} for each of the 17 Zs, (c) every Unicode scalar value c inside 4 templates \
+         (b) all 4-slot strings over {Zs,' ','a',euro} for each of the 17 Zs, (c) every Unicode scalar value c inside 6 templates (two of them behind 17 and 192 characters of multi-byte padding) \
          (is c treated as a space iff it is Zs in UnicodeData 16.0.0?), (d) proptest strings mixing all Zs with pool characters; \
          each through Rules::additional_mapping_rule of Nickname and OpaqueString. Oracle: map/split/join model over my own parse of \
          UnicodeData 16.0.0, plus idempotence. Non-trivial: the mapping changes the string and a multi-byte non-space character \
@@ -145,6 +145,9 @@ pub fn run(run: &Run) {
     });
 
     // (c) every scalar value in 4 templates
+    let pad17 = gens::pad(1, 5);
+    let pad64 = gens::pad(5, 11);
+    let (pad17, pad64) = (&pad17, &pad64);
     run.par("all_scalars_in_templates", true, |tid, n, l| {
         let mut cp = tid as u32;
         while cp < 0x110000 {
@@ -152,12 +155,14 @@ pub fn run(run: &Run) {
                 if cp % 8192 == 0 && run.stopped() {
                     return;
                 }
-                for t in 0..4 {
+                for t in 0..6 {
                     let s = match t {
                         0 => format!("a{c}b"),
                         1 => format!("{c}a"),
                         2 => format!("é{c}"),
-                        _ => format!("𝄞{c} x"),
+                        3 => format!("𝄞{c} x"),
+                        4 => format!("{}{c}b", pad17),
+                        _ => format!("{}{c}", pad64),
                     };
                     l.cases += 1;
                     for p in profs {
@@ -172,6 +177,15 @@ pub fn run(run: &Run) {
         }
     });
 
+    super::pipe::stress(run, "alignment_and_runs", &super::pipe::PAYLOADS_SPACE, &|s, l| {
+        for p in profs {
+            if check(p, s, l).is_err() {
+                shrink_and_report(run, p, s);
+                return false;
+            }
+        }
+        true
+    });
     // (d) random
     let mk = || {
       let ch = prop_oneof![
@@ -180,11 +194,50 @@ pub fn run(run: &Run) {
         40 => gens::pick(&pools().general),
         15 => gens::gchar(),
     ];
-      (prop_oneof![9 => vec(ch.clone(), 0..=24), 1 => vec(ch, 0..=200)], 0..2usize)
+      (gens::padded(prop_oneof![9 => vec(ch.clone(), 0..=24), 1 => vec(ch, 0..=200)].prop_map(gens::s_of).boxed()), 0..2usize)
     };
-    run.prop("random", run.pick(3_000_000, 100_000_000), mk, |(cs, pi), l| {
-        let s: String = cs.iter().collect();
-        check(profs[*pi], &s, l)
+    run.prop("random", run.pick(3_000_000, 100_000_000), mk, |(s, pi), l| check(profs[*pi], s, l));
+    // short enumerated strings behind / in front of long pads
+    let pads: Vec<(String, String)> = vec![(gens::pad(1, 5), String::new()), (gens::pad(3, 8), "z".into()), (String::new(), gens::pad(2, 9)), (gens::pad(5, 13), gens::pad(0, 3))];
+    let plen = run.pick(4usize, 5usize);
+    let pads = &pads;
+    run.par("enum_sigma2_long_pads", true, |tid, n, l| {
+        let mut total = 0u64;
+        for len in 0..=plen {
+            total += 8u64.pow(len as u32);
+        }
+        let mut idx = tid as u64;
+        while idx < total {
+            if idx % 4096 == tid as u64 % 4096 && run.stopped() {
+                return;
+            }
+            let mut rem = idx;
+            let mut len = 0;
+            loop {
+                let c = 8u64.pow(len as u32);
+                if rem < c {
+                    break;
+                }
+                rem -= c;
+                len += 1;
+            }
+            let mut core = String::new();
+            for _ in 0..len {
+                core.push(SIGMA2[(rem % 8) as usize]);
+                rem /= 8;
+            }
+            for (a, b) in pads.iter() {
+                let s = format!("{a}{core}{b}");
+                l.cases += 1;
+                for p in profs {
+                    if check(p, &s, l).is_err() {
+                        shrink_and_report(run, p, &s);
+                        return;
+                    }
+                }
+            }
+            idx += n as u64;
+        }
     });
 }
 
